@@ -102,6 +102,7 @@ fn dijkstra(start_node: Node, cx: &Cx) -> (r: Vec<Node>)
     //@rule n=1 `^(\s*)loop \{$` =>>
     loop
         invariant_except_break todo@.len() > 0, (c as int) < todo@.len(), buckets_ok(todo@), scs_nodes@.len() == 0, next@.len() == 0,
+        invariant forall|k: int| 0 <= k < c ==> (#[trigger] todo@[k]).nodes().len() == 0, // OBL: C06.dijkstra.no_cheaper_node_is_left_unexamined_when_a_bucket_is_taken_up
         ensures todo@.len() > 0, (c as int) < todo@.len(), buckets_ok(todo@), next@.len() == 0,
             scs_nodes@.len() == 1 && scs_nodes@[0].succ() && scs_nodes@[0].cost() == c,
     {
@@ -116,7 +117,8 @@ fn dijkstra(start_node: Node, cx: &Cx) -> (r: Vec<Node>)
         let mut ni_: usize = 0;
         while ni_ < next.len()
             invariant ni_ <= next@.len(), todo@.len() > 0, (c as int) < todo@.len(), buckets_ok(todo@), scs_nodes@.len() == 0,
-                forall|k: int| 0 <= k < next@.len() ==> (#[trigger] next@[k]).0 == next@[k].1.cost(),
+                forall|k: int| 0 <= k < next@.len() ==> (#[trigger] next@[k]).0 == next@[k].1.cost() && next@[k].1.cost() >= c,
+                forall|k: int| 0 <= k < c ==> (#[trigger] todo@[k]).nodes().len() == 0, // OBL: C06.dijkstra.a_neighbour_never_lands_in_a_cheaper_bucket
             decreases next@.len() - ni_,
         {
             //@probe
@@ -135,6 +137,7 @@ fn dijkstra(start_node: Node, cx: &Cx) -> (r: Vec<Node>)
         invariant next@.len() == 0,
             forall|i: int| 0 <= i < scs_nodes@.len() ==> (#[trigger] scs_nodes@[i]).succ() && scs_nodes@[i].cost() == c,
             forall|q: int| 0 <= q < scs_todo.nodes().len() ==> (#[trigger] scs_todo.nodes()[q]).cost() == c, // OBL: C06.dijkstra.second_phase_only_looks_at_nodes_of_the_least_cost
+        ensures scs_todo.nodes().len() == 0, // OBL: C06.dijkstra.every_node_of_the_least_cost_is_examined
     {
         //@probe
         let n = match scs_todo.pop() { Some((_, n)) => n, None => { break; } };
